@@ -256,7 +256,7 @@ Definition enabled (g : graph) (s : state) (l : label) : bool :=
   | LTaskDone t => lt_n g t && mem t (completing s)
   | LStop => stopreq s && negb (closed s)
   | LTimerCycleCheck c =>
-      is_nil (building s) && negb && negb (cycreported s) && is_cycle g s c
+      is_nil (building s) && negb (cycreported s) && is_cycle g s c
   | LExitRun =>
       closed s && is_nil (actq s) && is_nil (taken s) && is_nil (building s) && is_nil (finishing s) && is_nil (completing s)
   end.
